@@ -317,3 +317,109 @@ impl Check for Holes {
         r
     }
 }
+
+
+/* ------------------------------ declaration well-formedness ------------------------------ */
+
+/// Data and codata declarations over a small name pool, including repeated constructor /
+/// destructor names: a declaration is well formed iff its names are pairwise distinct.
+pub struct Declarations {
+    for_c01: bool,
+    cases: Vec<(bool, Vec<usize>, Vec<usize>)>,
+}
+impl Declarations {
+    pub fn new(for_c01: bool) -> Self {
+        let mut cases = vec![];
+        for codata in [false, true] {
+            for n in 1..=3usize {
+                // names from a pool of 3, payload / result types from a pool of 2
+                for names in 0..3usize.pow(n as u32) {
+                    for tys in 0..2usize.pow(n as u32) {
+                        let nv: Vec<usize> = (0..n).map(|i| names / 3usize.pow(i as u32) % 3).collect();
+                        let tv: Vec<usize> = (0..n).map(|i| tys >> i & 1).collect();
+                        cases.push((codata, nv, tv));
+                    }
+                }
+            }
+        }
+        Declarations { for_c01, cases }
+    }
+    fn text(&self, i: usize) -> (String, bool) {
+        let (codata, names, tys) = &self.cases[i];
+        let pre = "let Ret = @(intrinsic(ret)) in let Thk = @(intrinsic(thk)) in let Unit = @(intrinsic(unit)) in let Int64 = @(intrinsic(i64)) in let B = data | +T : Unit | +F : Unit end in ";
+        let pool = ["a", "b", "c"];
+        let distinct = {
+            let mut s = names.clone();
+            s.sort();
+            s.dedup();
+            s.len() == names.len()
+        };
+        let body = if *codata {
+            // result types: Ret Int64 / Ret B; the object answers every destructor, the program observes the first
+            let arms: Vec<String> = names.iter().zip(tys).map(|(n, t)| format!("| .{} : Ret {}", pool[*n], if *t == 0 { "Int64" } else { "B" })).collect();
+            let clauses: Vec<String> = names.iter().zip(tys).enumerate().map(|(k, (n, t))| format!("| .{} => ret {}", pool[*n], if *t == 0 { format!("{}", k + 1) } else { "(+T() : B)".to_string() })).collect();
+            let observe = if tys[0] == 0 { format!("! o .{}", pool[names[0]]) } else { format!("do r <- ! o .{}; match r | +T() => ret 10 | +F() => ret 20 end", pool[names[0]]) };
+            format!("let O = codata {} end in let o : Thk O = {{ comatch {} end }} in {}", arms.join(" "), clauses.join(" "), observe)
+        } else {
+            // payload types: Int64 / B; the program builds the LAST arm's constructor and matches with one arm per declared arm
+            let up = ["A", "Bb", "C"];
+            let arms: Vec<String> = names.iter().zip(tys).map(|(n, t)| format!("| +{} : {}", up[*n], if *t == 0 { "Int64" } else { "B" })).collect();
+            let last = names.len() - 1;
+            let value = format!("+{}({})", up[names[last]], if tys[last] == 0 { "5" } else { "(+F() : B)" });
+            let mut seen = vec![];
+            let mut marms = vec![];
+            for (n, t) in names.iter().zip(tys) {
+                if seen.contains(n) {
+                    continue;
+                }
+                seen.push(*n);
+                marms.push(format!("| +{}(s) => {}", up[*n], if *t == 0 { "ret s".to_string() } else { "(match s | +T() => ret 10 | +F() => ret 20 end)".to_string() }));
+            }
+            format!("let D = data {} end in let v : D = {} in match v {} end", arms.join(" "), value, marms.join(" "))
+        };
+        (format!("{pre}{body}"), distinct)
+    }
+}
+impl Check for Declarations {
+    fn property(&self) -> &'static str {
+        if self.for_c01 { "C01" } else { "C03" }
+    }
+    fn name(&self) -> String {
+        format!("{}-declarations", if self.for_c01 { "c01" } else { "c03" })
+    }
+    fn len(&self) -> usize {
+        self.cases.len()
+    }
+    fn describe(&self, i: usize) -> String {
+        self.text(i).0
+    }
+    fn rule(&self) -> String {
+        format!("every data and every codata declaration with 1..3 arms whose names come from a pool of 3 (repetitions included) and whose payload / result types come from {{Int64, a two-constructor data type}} ({} declarations), used by a program that introduces a value of the last arm / observes the first destructor and eliminates it with one arm per declared name; oracle: {}; non-trivial = every declaration with a repeated name or >= 2 arms", self.cases.len(), if self.for_c01 { "whatever is accepted runs without going wrong" } else { "accepted iff the names are pairwise distinct" })
+    }
+    fn run(&mut self, i: usize) -> CaseResult {
+        let scratch = Scratch::new("decls");
+        let (text, distinct) = self.text(i);
+        let path = scratch.write("main.zydeco", &text);
+        let mut r = CaseResult::ok("declaration").key(i as u64).nontrivial(!distinct || self.cases[i].1.len() >= 2);
+        match guarded(|| {
+            let s = Subject::analyze(&path);
+            let v = s.verdict();
+            let run = if v.accepted() { Some(s.run(b"", &[], 2000)) } else { None };
+            (v, run)
+        }) {
+            | Err(_) => r = r.count("front_end_panics_counted_by_C10", 1),
+            | Ok((v, run)) => {
+                if self.for_c01 {
+                    if let Some(run) = run {
+                        if let RunEnd::Panic(p) = &run.end {
+                            r = r.violation(format!("accepted program over a declaration with {} goes wrong: {}", if distinct { "distinct names" } else { "a repeated name" }, crate::front::short_msg(&p.msg)), format!("{:?}\n{}", run.end, text));
+                        }
+                    }
+                } else if v.accepted() != distinct {
+                    r = r.violation(if distinct { "a well-formed declaration (or its use) is rejected".to_string() } else { format!("a {} declaration with a repeated name is accepted", if self.cases[i].0 { "codata" } else { "data" }) }, format!("{:?}\n{}", v, text));
+                }
+            }
+        }
+        r
+    }
+}
